@@ -126,6 +126,7 @@ func init() {
 		ruleRunOnce(inPkgs("clip."), 10),
 		ruleRegionCodes(clipRegionFuncs, true),
 		ruleLoopShapes(inPkgs("clip."), 1, 5),
+		ruleBoxIntersection,
 	)
 
 	register("C10",
@@ -163,6 +164,8 @@ func init() {
 		ruleShapeFaults(shapeConfig{label: "simplify", keep: inPkgs("simplify."), floor: 21}),
 		ruleMemberLoops(inPkgs("simplify."), 5, 0),
 		ruleNoWrite("simplifier configuration", simplifierEntries, 20, 20),
+		ruleAreaFlag,
+		ruleCompactionIndex(inPkgs("simplify."), 4),
 	)
 
 	register("C15",
@@ -182,6 +185,7 @@ func init() {
 		ruleMemberLoops(inPkgs("clip/smartclip."), 10, 0),
 		ruleRegionCodes(append(append([]regionFunc(nil), clipRegionFuncs...), regionFunc{"clip/smartclip", "bitCodeOpen", true}), false),
 		ruleCornerTables,
+		ruleCompactionIndex(inPkgs("clip/smartclip."), 1),
 	)
 
 	register("C17",
@@ -199,6 +203,7 @@ func init() {
 		ruleNoWrite("observers", observerEntries, 25, 30),
 		ruleDiscardedResult(notGenerated),
 		ruleLoopShapes(notGenerated, 18, 25),
+		ruleCompactionIndex(notGenerated, 6),
 		ruleLastIterationWins(notGenerated, 100),
 	)
 }
